@@ -30,11 +30,20 @@ func (f *Formatter) formatAclDeclaration(decl *ast.AclDeclaration) *Declaration 
 			buf.WriteString(" " + v)
 		}
 		buf.WriteString(`"` + cidr.IP.Value + `"`)
-		if cidr.Mask != nil {
-			buf.WriteString("/" + cidr.Mask.String())
-		}
-		if v := f.formatComment(cidr.IP.Trailing, " ", 0); v != "" {
+		// trailing comments of the IP are placed before the slash when the mask is present
+		if v := f.formatComment(cidr.IP.Trailing, "", 0); v != "" {
 			buf.WriteString(" " + v)
+			if cidr.Mask != nil {
+				buf.WriteString(" ")
+			}
+		}
+		if cidr.Mask != nil {
+			buf.WriteString("/")
+			// the slash followed by an inline comment makes line comment, put whitespace between them
+			if len(cidr.Mask.Leading) > 0 {
+				buf.WriteString(" ")
+			}
+			buf.WriteString(cidr.Mask.String())
 		}
 		lines = append(lines, &DeclarationPropertyLine{
 			Leading:      f.formatComment(cidr.Leading, "\n", 1),
